@@ -250,8 +250,10 @@ func catchPanicNested(function func(), depth int) (err error) {
 	defer func() {
 		if caught := recover(); caught != nil {
 			if interrupt, ok := caught.(interruptPanic); ok {
-				if interrupt.runtime != nil && interrupt.runtime.scope != nil {
-					// A script is still running below this call (it came from a host function)
+				if rt := interrupt.runtime; rt != nil && rt.scope != nil && rt.scope.outer != nil {
+					// A script is still running below this call (it came from a host function).
+					// A lone context without an outer one is the global context that Eval and
+					// Call enter around their own work when the runtime is at rest.
 					panic(interrupt)
 				}
 				// Hand the caller the value its Interrupt function panicked with
